@@ -142,6 +142,15 @@ func (c *glCtx) expr(e ast.Expr) string {
 	case *ast.SelectorExpr:
 		sel := c.p.TypesInfo.Selections[x]
 		if sel == nil {
+			if v, ok := c.p.TypesInfo.Uses[x.Sel].(*types.Var); ok && c.errData && isErrorType(v.Type()) && v.Pkg() != nil {
+				switch v.Pkg().Path() + "." + v.Name() {
+				case "io.EOF":
+					return "Go.Error.eof"
+				case "io.ErrUnexpectedEOF":
+					return "Go.Error.unexpectedEOF"
+				}
+				return fmt.Sprintf("(Go.Error.other %q)", v.Pkg().Name()+"."+v.Name())
+			}
 			c.fail(e, "qualified identifier %s", x.Sel.Name)
 		}
 		if sel.Kind() != types.FieldVal {
@@ -356,8 +365,11 @@ func (c *glCtx) binary(x *ast.BinaryExpr, rt types.Type) string {
 		if b, ok := lt.Underlying().(*types.Basic); ok && b.Info()&types.IsUntyped != 0 {
 			want = rtp
 		}
-		if isErrorType(lt) || isErrorType(rtp) {
+		if (isErrorType(lt) || isErrorType(rtp)) && !c.errData {
 			c.fail(x, "comparison of error values")
+		}
+		if isErrorType(rtp) {
+			want = rtp
 		}
 		l := c.exprAs(x.X, want)
 		r := c.exprAs(x.Y, want)
@@ -365,6 +377,10 @@ func (c *glCtx) binary(x *ast.BinaryExpr, rt types.Type) string {
 		case *types.Basic:
 			_ = u
 		case *types.Array:
+		case *types.Interface:
+			if !(isErrorType(want) && c.errData) {
+				c.fail(x, "comparison of %s", want)
+			}
 		default:
 			c.fail(x, "comparison of %s", want)
 		}
@@ -728,6 +744,19 @@ func (c *glCtx) stdlib(qn string, call *ast.CallExpr, n int) ([]string, bool) {
 		t := c.fresh("t")
 		c.emit("let %s := Go.uvarint %s", t, c.expr(call.Args[0]))
 		return []string{t + ".1", t + ".2"}, true
+	case "io.ReaderAt.ReadAt":
+		// an io.ReaderAt is a function (len, off) ↦ (bytes read, error); the bytes land at the front of the buffer
+		if !c.errData {
+			c.fail(call, "io.ReaderAt.ReadAt outside an errors-as-data function")
+		}
+		se := ast.Unparen(call.Fun).(*ast.SelectorExpr)
+		rd := c.expr(se.X)
+		buf := c.expr(call.Args[0])
+		off := c.exprAs(call.Args[1], types.Typ[types.Int64])
+		t := c.fresh("t")
+		c.emit("let %s := %s (Go.len %s) %s", t, rd, buf, off)
+		c.store(call.Args[0], fmt.Sprintf("(%s.1 ++ (%s).drop %s.1.length)", t, buf, t))
+		return []string{fmt.Sprintf("(Go.len %s.1)", t), t + ".2"}, true
 	case "bytes.NewReader":
 		return []string{fmt.Sprintf("(Go.BytesReader.mk %s 0)", c.expr(call.Args[0]))}, true
 	case "bytes.Reader.Len":
